@@ -945,7 +945,7 @@ def build_fncall(
         for binding, doc in kwargdocs
     ]
 
-    if not (argdocs or kwargdocs):
+    if not (argdocs or kwargdocs or trailing_comment):
         return concat([
             fndoc,
             LPAREN,
@@ -1244,6 +1244,23 @@ def pretty_bracketable_iterable(value, ctx, trailing_comment=None):
         left, right = LBRACE, RBRACE
 
     if not value:
+        if trailing_comment:
+            # Keep the comment: [\n    # comment\n]
+            if is_native_type and isinstance(value, (list, tuple)):
+                return sequence_of_docs(
+                    ctx,
+                    left,
+                    [commentdoc(trailing_comment)],
+                    right,
+                    force_break=True
+                )
+            # set(\n    # comment\n), Subclass(\n    # comment\n)
+            return build_fncall(
+                ctx,
+                general_identifier(constructor),
+                trailing_comment=trailing_comment
+            )
+
         if isinstance(value, (list, tuple)):
             if is_native_type:
                 return concat([left, right])
